@@ -120,7 +120,7 @@ Entries ==
      th : {NaN, -100000, 50000, 100000, 1200000},
      left : {NaN, -50000, 90000, 100000},
      right : {NaN, 100000, 110000, 1500000},
-     se : {NaN, 0, 10000, 2000000},
+     se : {NaN, 0, 1, 10000, 2000000},      \* 1 = the smallest positive uncertainty on the grid (3e-7)
      A : {-100000, 0, 200000, 1500000},
      bc_zero : BOOLEAN,
      pl : {80000, 120000},
